@@ -6,7 +6,7 @@ from harness import aggfam, core, gen
 
 RULE = ("fault enumeration: for each run configuration (nonparametric / gaussian, 1-3 estimands, 1-3 levels, with and without features and "
         "regularisation) EVERY fit position of the run (median, lower, upper of every estimand and level) x {SolverError, UserWarning} is injected "
-        "at the first attempt of that fit; the run must complete and every returned table must equal the fault-free run (1e-6 relative: the LP is "
+        "at the first attempt of that fit, and once more one layer down at every per-quantile solve inside the solver (a failure in the middle of a fit); the run must complete and every returned table must equal the fault-free run (1e-6 relative: the LP is "
         "the same up to a positive scaling of the objective); the retry call's captured keyword arguments are compared with the first attempt's. "
         "distinct = (configuration, fit position, failure kind); non-trivial = the fault was actually raised and a retry happened")
 
@@ -44,7 +44,8 @@ def compare_tables(t0, t1, tol=1e-6):
 def worker(job):
     from harness import run_impl
 
-    seed, kw, target, kind = job
+    seed, kw, target, kind = job[:4]
+    layer = job[4] if len(job) > 4 else "fit"
     case = config_case(seed, kw)
     run_impl._imp()
     import cvxpy
@@ -58,16 +59,27 @@ def worker(job):
         k = state["first_attempts"]
         state["first_attempts"] += 1
         state.setdefault("firsts", []).append({k2: (None if hasattr(v, "shape") else v) for k2, v in kwargs.items()})
-        if target is not None and k == target:
+        if layer == "fit" and target is not None and k == target:
             state["raised"] = True
             if kind == "SolverError":
                 raise cvxpy.error.SolverError("injected by the C20 check")
             raise UserWarning("Solution may be inaccurate (injected by the C20 check)")
 
-    with run_impl.SolverCapture(fault=fault, keep_arrays=False):
+    def inner_fault(j, in_retry, tau):
+        # a failure in the middle of a fit: raised at the j-th per-quantile solve of the first attempts
+        if in_retry:
+            return
+        state["n_inner"] = j + 1
+        if layer == "solve" and target is not None and j == target:
+            state["raised"] = True
+            if kind == "SolverError":
+                raise cvxpy.error.SolverError("injected by the C20 check (per-quantile solve)")
+            raise UserWarning("Solution may be inaccurate (injected by the C20 check, per-quantile solve)")
+
+    with run_impl.SolverCapture(fault=fault, keep_arrays=False, inner_fault=inner_fault):
         h = aggfam.harvest(case)
     p = case["params"]
-    res = {"job": [seed, kw, target, kind], "ok": h["ok"], "exc": h.get("exc"), "n_first": state["first_attempts"], "raised": state["raised"],
+    res = {"job": [seed, kw, target, kind, layer], "ok": h["ok"], "exc": h.get("exc"), "n_first": state["first_attempts"], "n_inner": state.get("n_inner", 0), "raised": state["raised"],
            "retries": state["retries"], "firsts": state.get("firsts", []), "tables": tables_of(h) if h["ok"] else None,
            "cfg": {"pi": p["pi_method"], "est": p["estimands"], "alphas": p["prediction_intervals"], "features": p["features"],
                    "lambda": p["model_parameters"].get("lambda_", 0), "fe": p["fixed_effects"]}}
@@ -101,15 +113,19 @@ def run(chk):
             continue
         for k in range(b["n_first"]):
             for kind in ("SolverError", "UserWarning"):
-                jobs.append((s, kw, k, kind))
+                jobs.append((s, kw, k, kind, "fit"))
+        # the same enumeration one layer down: every per-quantile solve (differs from the above as soon as one fit call solves
+        # several quantiles, where a failure can leave coefficients of the earlier quantiles behind)
+        for k in range(b["n_inner"]):
+            jobs.append((s, kw, k, "SolverError" if k % 2 == 0 else "UserWarning", "solve"))
     outs = core.pmap(worker, jobs)
     base_by = {json.dumps([s, kw], sort_keys=True): b for b, s, kw in zip(bases, seeds, configs)}
     for o in outs:
-        s, kw, k, kind = o["job"]
+        s, kw, k, kind, layer = o["job"]
         b = base_by[json.dumps([s, kw], sort_keys=True)]
-        chk.count({"cfg": o["cfg"], "k": k, "kind": kind}, nontrivial=o["raised"] and len(o["retries"]) >= 1,
+        chk.count({"cfg": o["cfg"], "k": k, "kind": kind, "layer": layer}, nontrivial=o["raised"] and len(o["retries"]) >= 1,
                   sample={"configuration": o["cfg"], "fits_in_run": b["n_first"], "fault_at_fit": k, "kind": kind, "completed": o["ok"]})
-        replay = {"kind": "c20", "seed": s, "kw": kw, "target": k, "fault": kind}
+        replay = {"kind": "c20", "seed": s, "kw": kw, "target": k, "fault": kind, "layer": layer}
         if not o["raised"]:
             chk.violation(f"fit position {k} was never reached in the faulted run", replay, {"kind": "harness"}, no_input=True)
             continue
@@ -119,6 +135,11 @@ def run(chk):
             continue
         if len(o["retries"]) != 1:
             chk.violation(f"{kind} at fit {k}: expected exactly one retry without weight normalisation, saw {len(o['retries'])}", replay, {"kind": "retry-count"})
+            continue
+        if layer == "solve":
+            diff = compare_tables(b["tables"], o["tables"])
+            if diff:
+                chk.violation(f"{kind} at per-quantile solve {k} of {o['cfg']}: {diff}", replay, {"kind": "tables-differ", "regularised": bool(o["cfg"]["lambda"])})
             continue
         first = o["firsts"][k]
         retry = o["retries"][0]
@@ -138,6 +159,6 @@ def run(chk):
 
 def replay(chk, payload):
     r = payload["replay"]
-    o = worker((r["seed"], r["kw"], r["target"], r["fault"]))
+    o = worker((r["seed"], r["kw"], r["target"], r["fault"], r.get("layer", "fit")))
     print(json.dumps({"ok": o["ok"], "exc": o["exc"], "raised": o["raised"], "retries": o["retries"]}, indent=1, default=str))
     return 0 if o["ok"] else 1
